@@ -102,19 +102,19 @@ def _is_name(n, ident):
     return isinstance(n, ast.Name) and n.id == ident
 
 
-def _range_cond(n):
-    """(value < lo or value > hi) -> (0, [lo, hi]);  (value != a and value != b ...) -> (1, [a, b, ...])"""
+def _range_cond(n, var="value"):
+    """(v < lo or v > hi) -> (0, [lo, hi]);  (v != a and v != b ...) -> (1, [a, b, ...])   (v = the checked variable)"""
     if isinstance(n, ast.BoolOp) and isinstance(n.op, ast.Or) and len(n.values) == 2:
         a, b = n.values
         if isinstance(a, ast.Compare) and isinstance(b, ast.Compare) and len(a.ops) == 1 and len(b.ops) == 1 \
-                and _is_name(a.left, "value") and _is_name(b.left, "value") \
+                and _is_name(a.left, var) and _is_name(b.left, var) \
                 and isinstance(a.ops[0], ast.Lt) and isinstance(b.ops[0], ast.Gt):
             return 0, [_const_int(a.comparators[0]), _const_int(b.comparators[0])]
     if isinstance(n, ast.BoolOp) and isinstance(n.op, ast.And):
         vals = []
         for c in n.values:
             if not (isinstance(c, ast.Compare) and len(c.ops) == 1 and isinstance(c.ops[0], ast.NotEq)
-                    and _is_name(c.left, "value")):
+                    and _is_name(c.left, var)):
                 raise Bad(f"unrecognised value test {ast.unparse(n)}")
             vals.append(_const_int(c.comparators[0]))
         return 1, vals
@@ -155,16 +155,25 @@ def _code_tables(repo):
     for node in ast.walk(sa):
         if isinstance(node, ast.Assign) and len(node.targets) == 1 and _is_name(node.targets[0], "privateVars"):
             private = _str_list(node.value)
+        # older shape: `if not isinstance(value, list): <chain on value>`  (lists are not checked)
         if isinstance(node, ast.If) and ast.unparse(node.test) == "not isinstance(value, list)" \
                 and not (len(node.body) == 1 and isinstance(node.body[0], ast.Assign)):
-            guards.append(node)
+            guards.append((node, "value", False))
+        # current shape: `for item in (value if isinstance(value, list) else [value]): <chain on item>`
+        if isinstance(node, ast.For) and isinstance(node.target, ast.Name) \
+                and ast.unparse(node.iter) == "value if isinstance(value, list) else [value]":
+            guards.append((node, node.target.id, True))
     if private is None:
         raise Bad("__setattr__: privateVars not found")
     if len(guards) != 1:
-        raise Bad(f"__setattr__: expected one `if not isinstance(value, list):` guard around the value checks, found {len(guards)}")
-    g = guards[0]
+        raise Bad(f"__setattr__: expected exactly one block of value checks (for item in (value if isinstance(value, list) "
+                  f"else [value]) / if not isinstance(value, list)), found {len(guards)}")
+    g, var, each = guards[0]
     if g.orelse or len(g.body) != 1 or not isinstance(g.body[0], ast.If):
-        raise Bad("__setattr__: the guarded block is not a single if/elif chain")
+        raise Bad("__setattr__: the block of value checks is not a single if/elif chain")
+    for node in ast.walk(g):
+        if isinstance(node, (ast.Break, ast.Continue, ast.Return)):
+            raise Bad("__setattr__: break/continue/return inside the value checks")
     groups = []
     link = g.body[0]
     while True:
@@ -176,7 +185,7 @@ def _code_tables(repo):
                 and _is_name(memb.left, "name")):
             raise Bad(f"__setattr__: unexpected name test {ast.unparse(memb)}")
         names = _str_list(memb.comparators[0])
-        kind, params = _range_cond(cond)
+        kind, params = _range_cond(cond, var)
         if len(link.body) != 1 or not isinstance(link.body[0], ast.Raise) \
                 or not ast.unparse(link.body[0].exc).startswith("MQTTException("):
             raise Bad("__setattr__: a check does not raise MQTTException")
@@ -186,7 +195,7 @@ def _code_tables(repo):
         if len(link.orelse) != 1 or not isinstance(link.orelse[0], ast.If):
             raise Bad("__setattr__: else branch in the value checks")
         link = link.orelse[0]
-    return multi, private, groups
+    return multi, private, groups, each
 
 
 def _b(s):
@@ -201,7 +210,7 @@ def _cmt(s):
     return s.replace("(*", "( *").replace("*)", "* )")
 
 
-def _emit(rt, multi, private, groups):
+def _emit(rt, multi, private, groups, each):
     P = []
     P.append("(* PacketTypes: (name, value) of every upper-case integer attribute; Names; indexes *)")
     P.append("Definition gen_packet_types : list (list Z * Z) :=\n  [ " +
@@ -229,6 +238,9 @@ def _emit(rt, multi, private, groups):
     P.append("Definition gen_range_groups : list (list (list Z) * Z * list Z) :=\n  [ " +
              ";\n    ".join("([" + "; ".join(f"{_b(n)} (* {_cmt(n)} *)" for n in names) + f"], {kind}, {_zl(params)})"
                             for names, kind, params in groups) + " ].")
+    P.append("(* true: the chain runs for every element of an assigned list (for item in ...); "
+             "false: it is skipped for lists (if not isinstance(value, list)) *)")
+    P.append(f"Definition gen_range_each : bool := {'true' if each else 'false'}.")
     R = []
     R.append("(* ReasonCode.names in dict order: (value, [(name, packet types)]) *)")
     R.append("Definition gen_reason_table : list (Z * list (list Z * list Z)) :=\n  [ " +
@@ -249,9 +261,9 @@ def generate(repo):
         problems.append(("C17 tables (Properties/ReasonCode/PacketTypes data)", f"{type(e).__name__}: {e}"))
         rt = _EMPTY
     try:
-        multi, private, groups = _code_tables(repo)
+        multi, private, groups, each = _code_tables(repo)
     except Exception as e:
         problems.append(("C17 tables (Properties.__setattr__ checks / allowsMultiple)", f"{type(e).__name__}: {e}"))
-        multi, private, groups = [], [], []
-    ptext, rtext = _emit(rt, multi, private, groups)
+        multi, private, groups, each = [], [], [], False
+    ptext, rtext = _emit(rt, multi, private, groups, each)
     return [("GenPropTable.v", ptext, problems), ("GenReasonTable.v", rtext, [])]
